@@ -110,6 +110,7 @@ type StepVars struct {
 	Survive   *smt.Term // Bool: stubbed sanitizeAttrs kept an attribute
 	Pre, Post map[string]sym.Value
 	Formula   *smt.Term
+	NGroups   int
 }
 
 func stateVars(t *TRel, prefix string) map[string]sym.Value {
@@ -175,7 +176,7 @@ func (t *TRel) Instance(j int, pre map[string]sym.Value) *StepVars {
 			}
 		}
 		if p.Tok != nil {
-			if p.Tok.Data != nil {
+			if p.Tok.Data != nil && !p.Tok.Data.IsConst() {
 				sub[p.Tok.Data] = sv.Data
 			}
 			for k := range p.Tok.Keys {
@@ -215,6 +216,8 @@ func (t *TRel) Instance(j int, pre map[string]sym.Value) *StepVars {
 			a.errOther = p.Tok.Kind == "Error" && p.Tok.ErrIs != "EOF"
 			if p.Tok.Data == nil {
 				a.dataEq = smt.Eq(sv.Data, smt.StrC(""))
+			} else if p.Tok.Data.IsConst() {
+				a.dataEq = smt.Eq(sv.Data, p.Tok.Data)
 			}
 		}
 		a.nwrites = int64(len(p.Writes))
@@ -223,7 +226,7 @@ func (t *TRel) Instance(j int, pre map[string]sym.Value) *StepVars {
 			switch {
 			case w.Failed:
 				a.failed = true
-			case ws.Op == "uf" && strings.HasPrefix(ws.Name, "tokstr.") && ws.Args[0] == sv.Data && strings.HasPrefix(ws.Name, "tokstr."+p.Tok.Kind+"."):
+			case ws.Op == "uf" && strings.HasPrefix(ws.Name, "tokstr.") && (ws.Args[0] == sv.Data || ws.Args[0] == p.Tok.Data) && strings.HasPrefix(ws.Name, "tokstr."+p.Tok.Kind+"."):
 				a.written = true
 				a.outn = int64((len(ws.Args) - 1) / 2)
 			case ws.IsConst() && ws.S == " ":
@@ -253,6 +256,37 @@ func (t *TRel) Instance(j int, pre map[string]sym.Value) *StepVars {
 		}
 		alts = append(alts, a)
 	}
+	// merge paths that agree on every observable and on the post state
+	{
+		idx := map[string]int{}
+		var merged []alt
+		for _, a := range alts {
+			var sb strings.Builder
+			fmt.Fprintf(&sb, "%d|%d|%d|%d|%v|%v|%v|%v|%v|%v|%v|", a.kind, a.nattr, a.outn, a.nwrites, a.errOther, a.written, a.space, a.raw, a.failed, a.returned, a.reterr)
+			if a.dataEq != nil {
+				fmt.Fprintf(&sb, "E%d|", a.dataEq.ID())
+			}
+			if a.post != nil {
+				for _, nme := range t.Names {
+					switch pv := a.post[nme].(type) {
+					case *smt.Term:
+						fmt.Fprintf(&sb, "%d,", pv.ID())
+					case *sym.SymSliceV:
+						fmt.Fprintf(&sb, "%d:%d,", pv.Arr.ID(), pv.Len.ID())
+					}
+				}
+			}
+			k := sb.String()
+			if i, ok := idx[k]; ok {
+				merged[i].cond = smt.Or(merged[i].cond, a.cond)
+				continue
+			}
+			idx[k] = len(merged)
+			merged = append(merged, a)
+		}
+		alts = merged
+	}
+	sv.NGroups = len(alts)
 	n := len(alts)
 	var cs []*smt.Term
 	cs = append(cs, smt.Le(smt.IntC(0), sv.Sel), smt.Lt(sv.Sel, smt.IntC(int64(n))))
